@@ -252,15 +252,6 @@ func VerifH_C11_traditional() {
 	_ = rerr
 }
 
-func containsStr(s, sub string) bool {
-	for i := 0; i+len(sub) <= len(s); i++ {
-		if s[i:i+len(sub)] == sub {
-			return true
-		}
-	}
-	return false
-}
-
 // VerifH_C11_lowlatency: the real runLowLatency: the preload hint of each successive playlist is
 // downloaded, delta updates are requested exactly when CAN-SKIP-UNTIL was advertised.
 func VerifH_C11_lowlatency() {
